@@ -513,3 +513,15 @@ func queryPost(e *Engine, ev *RunEvidence) []Found {
 type oracleC17 struct{ baseOracle }
 
 func (oracleC17) Prop() string { return "C17" }
+
+// Invariant: in the ordinary exploration every state is queried by the post pass (queryPost). Inside the continuation of
+// a process that carries keeper memory (keepermem.go) there is no post pass, so the state is queried here, on the
+// keeper of that very process.
+func (oracleC17) Invariant(x *OCtx, v *View, m *Mon) []Violation {
+	if !x.InCont {
+		return nil
+	}
+	vs, _ := queryState(x.Rig, x.Sc, v.S)
+	x.Wit("C17:states-queried-in-a-memory-carrying-process")
+	return vs
+}
